@@ -368,7 +368,8 @@ func climb(r *mon.Rec, f family, steps int) {
 	best := f.build(4096)
 	bc := measure(f.fam, best)
 	fit := func(c cost) float64 { return float64(c.decAlloc+c.encAlloc) / float64(max(c.n, 1)) }
-	for s := 0; s < steps; s++ {
+	var spent int64 // cumulative allocation of this climb: a deterministic safety cap (1.5 TB) besides the step count
+	for s := 0; s < steps && spent < 1500e9; s++ {
 		var cand []byte
 		if f.fam == "v4" {
 			cand = gen4.Mutate(rng, best, nil)
@@ -394,6 +395,7 @@ func climb(r *mon.Rec, f family, steps int) {
 		}
 		curCase.Store(&rp)
 		c := measure(f.fam, cand)
+		spent += c.decAlloc + c.encAlloc
 		if !judge(r, rp, c) {
 			return
 		}
@@ -467,7 +469,7 @@ func TestCheck(t *testing.T) {
 			}
 		}
 	}()
-	steps := r.Pick(2000, 100000)
+	steps := r.Pick(2000, 30000)
 	for i, f := range families {
 		if !r.Mine(i) {
 			continue
